@@ -25,6 +25,17 @@ def gen_case(rng, tier):
     c["query_t"] = rng.choice(stages)
     # T-stage keys need not be strings: a quarter of the cases uses the integers 0 / 1 (0 is falsy) with its own mapping
     c["int_stages"] = rng.random() < 0.25
+    if c["graph"]["base"] == 3 and len(c["mods"]) >= 2 and rng.random() < 0.4:
+        # a clinical and a pathological modality with equal specificity and sensitivity
+        c["mods"][1][1], c["mods"][1][2] = c["mods"][0][1], c["mods"][0][2]
+        c["mods"][1][3] = "clinical" if c["mods"][0][3] == "pathological" else "pathological"
+    micro = [k for k in c["params"] if k.endswith("_micro")]
+    if micro and rng.random() < 0.3:          # boundary: a micro modifier of exactly 0 on an arc that does spread
+        k = rng.choice(micro)
+        c["params"][k] = 0.0
+        sp = k[:-len("micro")] + "spread"
+        if c["params"].get(sp, 0.0) == 0.0:
+            c["params"][sp] = 0.5
     return c
 
 
